@@ -471,16 +471,22 @@ func C20(c *runner.Cfg) *report.Result {
 	// duplicate channel ids from a scripted peer
 	nd := c.N(150, 5000)
 	dupInv := sync.Map{}
+	dupDone := sync.Map{} // handlers whose context was cancelled
 	dh := mpx.HandleFunc(func(ctx mpx.Context, ch mpx.Channel) status.Status {
 		b, st := ch.Receive(ctx)
+		key := uint64(0)
 		if st.OK() {
 			id, _, seq, _, full := netx.Describe(b)
 			if full {
-				v, _ := dupInv.LoadOrStore(uint64(id)<<32|uint64(seq), new(atomic.Int32))
+				key = uint64(id)<<32 | uint64(seq)
+				v, _ := dupInv.LoadOrStore(key, new(atomic.Int32))
 				v.(*atomic.Int32).Add(1)
 			}
 		}
 		<-ctx.Wait()
+		if key != 0 {
+			dupDone.Store(key, true)
+		}
 		return status.OK
 	})
 	dsrv, daddr, err := StartServer(dh, logger, Opts(0, 0, 0, 0, false))
@@ -520,6 +526,12 @@ func C20(c *runner.Cfg) *report.Result {
 			Settle(time.Second, func() bool { return get(1) >= 1 })
 			if get(1) != 1 || get(2) != 0 {
 				res.Violate("c20:duplicate-open-handled-twice", fmt.Sprintf("same channel id opened twice: handler invocations first=%d second=%d (want 1, 0)", get(1), get(2)), nil)
+			}
+			// the connection is gone: the context of the handler that did run must be cancelled
+			if get(1) == 1 && !Settle(Watchdog, func() bool { _, ok := dupDone.Load(uint64(tag)<<32 | 1); return ok }) {
+				res.Violate("c20:duplicate-open:handler-context-not-cancelled", fmt.Sprintf("a second open frame for a live channel id made the server close the connection, but %v later the context of the channel's handler is still not cancelled (the handler is left behind)", Watchdog), map[string]any{"stream": "C20/dup", "index": idx})
+				c.Abort.Store(true)
+				return
 			}
 			res.Nontrivial(uint64(tag))
 		}, nil)
